@@ -426,6 +426,56 @@ func (r *vfC15Rec) counts(id string) (reports, refused int) {
 	return r.reports[id], r.refused[id]
 }
 
+// bytesSeen: bytes of every report of id so far (accepted or refused).
+func (r *vfC15Rec) bytesSeen(id string) uint64 {
+	r.mu.Lock()
+	defer r.mu.Unlock()
+	var n uint64
+	for _, e := range r.evs {
+		if e.Kind == "traffic" && e.ID == id {
+			n += e.Tx + e.Rx
+		}
+	}
+	return n
+}
+
+// countsSince: reports / refused reports of id recorded after the (last) marker m.
+func (r *vfC15Rec) countsSince(id, m string) (reports, refused int) {
+	r.mu.Lock()
+	defer r.mu.Unlock()
+	for i := len(r.evs) - 1; i >= 0; i-- {
+		e := r.evs[i]
+		if e.Kind == "step" && e.Marker == m {
+			break
+		}
+		if e.Kind == "traffic" && e.ID == id {
+			reports++
+			if !e.Ok {
+				refused++
+			}
+		}
+	}
+	return
+}
+
+// firstSince: the first report of id recorded after the (last) marker m.
+func (r *vfC15Rec) firstSince(id, m string) (vfC15RecEv, bool) {
+	r.mu.Lock()
+	defer r.mu.Unlock()
+	var first vfC15RecEv
+	found := false
+	for i := len(r.evs) - 1; i >= 0; i-- {
+		e := r.evs[i]
+		if e.Kind == "step" && e.Marker == m {
+			break
+		}
+		if e.Kind == "traffic" && e.ID == id {
+			first, found = e, true
+		}
+	}
+	return first, found
+}
+
 func (r *vfC15Rec) tail(n int) []vfC15RecEv {
 	r.mu.Lock()
 	defer r.mu.Unlock()
